@@ -12,6 +12,15 @@ fn jf3<A, B, C>(a: A, b: B, c: C) -> (A, B, C) { ev("j.x.a", &3usize); (a, b, c)
 fn jl2<A, B>(a: impl FnOnce() -> A, b: impl FnOnce() -> B) -> (A, B) { ev("j.x.a", &2usize); let vb = b(); let va = a(); (va, vb) }
 fn jl3<A, B, C>(a: impl FnOnce() -> A, b: impl FnOnce() -> B, c: impl FnOnce() -> C) -> (A, B, C) { ev("j.x.a", &3usize); let vc = c(); let vb = b(); let va = a(); (va, vb, vc) }
 macro_rules! jl { ($a:expr, $b:expr) => { jl2($a, $b) }; ($a:expr, $b:expr, $c:expr) => { jl3($a, $b, $c) } }
+// async + lazy: every branch arrives as a zero-argument closure that returns the branch future
+macro_rules! jla {
+    ($a:expr, $b:expr) => {{ ev("j.x.a", &2usize); let (fa, fb) = ($a, $b); let (vb, va) = (fb(), fa()); ::futures::join!(va, vb) }};
+    ($a:expr, $b:expr, $c:expr) => {{ ev("j.x.a", &3usize); let (fa, fb, fc) = ($a, $b, $c); let (vc, vb, va) = (fc(), fb(), fa()); ::futures::join!(va, vb, vc) }};
+}
+macro_rules! jlta {
+    ($a:expr, $b:expr) => {{ ev("j.x.a", &2usize); let (fa, fb) = ($a, $b); let (vb, va) = (fb(), fa()); ::futures::try_join!(va, vb) }};
+    ($a:expr, $b:expr, $c:expr) => {{ ev("j.x.a", &3usize); let (fa, fb, fc) = ($a, $b, $c); let (vc, vb, va) = (fc(), fb(), fa()); ::futures::try_join!(va, vb, vc) }};
+}
 '''
 
 
@@ -36,6 +45,8 @@ def programs(tier):
                 ("join_async", "custom_joiner(jma!)", {"when": "before"}, "Proj"),
                 ("try_join_async", "custom_joiner(jmta!)", {"when": "before"}, "TryAsync"),
                 ("join_async_spawn", "custom_joiner(jma!)", {"when": "before"}, "Proj"),
+                ("join_async", "lazy_branches(true) custom_joiner(jla!)", {"when": "before"}, "Proj"),
+                ("try_join_async", "custom_joiner(jlta!) lazy_branches(true)", {"when": "before"}, "TryAsync"),
                 ("join", "lazy_branches(true) custom_joiner(jl!)", {"when": "before", "reverse": True}, "Full"),
                 ("try_join", "custom_joiner(jl!) lazy_branches(true)", {"when": "before", "reverse": True}, "Full"),
             ]
